@@ -20,6 +20,8 @@ claimed (the code would go on).
 Message calls (`sound_calls`, for the frame-stack machine Model.SevmCalls `runC`): CALL / CALLCODE with the literal
 value 0, DELEGATECALL, STATICCALL to literal targets whose code is known (or absent), nested to any depth, against
 `Spec.Evm.exec` with its nested calls; the storage maps of *all* modelled accounts describe the final world (`WRelM`).
+`sound_calls_from`: from any first state related to a concrete configuration (a transaction after a transaction:
+Model.SevmCalls `nextTx`, Lemmas.SevmCallTx `relC_nextTx`; Props.C03Setup composes setUp and test with it).
 `sound_calls_create`: with CREATE followed; `sound_calls_hsto`: with SLOAD / SSTORE at mapping and dynamic-array
 locations followed (`SolidityStorage`; the cells written describe the slots from 2^64 on of the final world, `HRel`).
 
